@@ -221,6 +221,12 @@ func zzSchema(k int) map[string]*Decl {
 			"b": {XPath: zzS("B"), Object: map[string]*Decl{}},
 			"c": {XPath: zzS("B"), Array: []*Decl{}},
 		}}}
+	case 17: // the same declaration with and without keep_empty_or_null, on the same node
+		return map[string]*Decl{finalOutput: {Object: map[string]*Decl{
+			"a": {XPath: zzS("B")},
+			"b": {XPath: zzS("B"), KeepEmptyOrNull: true},
+			"c": {XPath: zzS("B"), NoTrim: true},
+		}}}
 	case 14: // field names with the characters the fqdn escaping touches
 		return map[string]*Decl{finalOutput: {Object: map[string]*Decl{
 			"p%q": {XPath: zzS("B")},
@@ -236,7 +242,7 @@ func zzSchema(k int) map[string]*Decl {
 	}
 }
 
-const zzNumSchemas = 17
+const zzNumSchemas = 18
 
 func zzText(name string) string { return zzTextN(name, 2) }
 
